@@ -75,4 +75,16 @@ def holds (items : List Item) (rcvK : Nat) (o : Observed) : Bool :=
   sameMultiset (o.errors.map causeKey) ((expectedErrors items rcvK).map causeKey) &&
   o.doneAfterLastWrite && o.errClosed && o.stable
 
+/-- sub-multiset: every key of `a` occurs in `b` at least as often -/
+def subMultiset (a b : List String) : Bool := a.all (fun k => a.count k ≤ b.count k)
+
+/-- cancelled runs (packet side of C12): whenever the cancellation comes, nothing panics, the error stream
+    ends (within the bound the harness allows), and what did reach the wire and the error stream before and
+    after the cancel is still byte-exact and at most once: a sub-multiset of the frames / errors of the
+    uncancelled run; the bytes do not change while the writer holds them -/
+def holdsCancel (items : List Item) (rcvK : Nat) (o : Observed) : Bool :=
+  subMultiset (o.written.map bytesKey) ((expectedFrames items).map bytesKey) &&
+  subMultiset (o.errors.map causeKey) ((expectedErrors items rcvK).map causeKey) &&
+  o.errClosed && o.stable
+
 end SxVerif.Spec.Pipe
